@@ -125,10 +125,11 @@ impl<VM: VMBinding> PageResource<VM> for FreeListPageResource<VM> {
                 // after ensure_mapped(). However, I think this is sufficient given that this option is only used for PageProtect for debugging use.
                 while !new_chunk && !MMAPPER.is_mapped_address(rtn) {}
                 self.munprotect(rtn, sync.free_list.size(page_offset as _) as _)
-            } else if !self.common.contiguous && new_chunk {
-                // Don't unprotect if this is a new unmapped discontiguous chunk
-                // For a new mapped discontiguous chunk, this should previously be released and protected by us.
-                // We still need to unprotect it.
+            } else if new_chunk {
+                // Don't unprotect if this is a new unmapped chunk.
+                // A "new chunk" that is already mapped was used, released and protected by us before
+                // (e.g. as the tail of an object that spanned several chunks, in a contiguous space
+                // as well): we still need to unprotect it.
                 if MMAPPER.is_mapped_address(rtn) {
                     self.munprotect(rtn, sync.free_list.size(page_offset as _) as _)
                 }
